@@ -30,6 +30,7 @@ def main():
     ap.add_argument('--tier', default='quick')
     ap.add_argument('--demo', action='store_true')
     ap.add_argument('--seed', default='1')
+    ap.add_argument('--fresh', action='store_true', help='rewrite SENSITIVITY_SEEDED.md instead of appending to it')
     a = ap.parse_args()
     out = []
     for d in sorted(glob.glob(os.path.join(HERE, 'seeded', '*'))):
@@ -57,7 +58,12 @@ def main():
             line = f"| {name} | {prop} | {res} | {wall:.0f}s | {demo} | {meta.get('summary', '')[:120]} | {tail[:200]} |"
             print(line, flush=True)
             out.append(line)
-    with open(os.path.join(HERE, 'SENSITIVITY_SEEDED.md'), 'a') as f:
+    with open(os.path.join(HERE, 'SENSITIVITY_SEEDED.md'), 'w' if a.fresh else 'a') as f:
+        if a.fresh:
+            f.write('# Checks against the independently written property-breaking changes (tools/run_seeded.py)\n\n'
+                    f'tier={a.tier} seed={a.seed}; one row per (change, property whose check is expected to catch it); '
+                    '`demo a->b` = exit status of the change\'s own demonstration on the unchanged tree -> with the change\n\n'
+                    '| change | property | result | wall | demo | what it breaks | first buckets |\n|---|---|---|---|---|---|---|\n')
         f.write('\n'.join(out) + '\n')
 
 
